@@ -143,6 +143,7 @@ def cases(ctx):
             yield {"k": "txout", "hex": wire.txout_encode(o).hex()}
     for v in (gen.B64 + [252, 253, 65535, 65536, 2**32 - 1, 2**32])[S::N]:
         yield {"k": "varint", "n": v}
+    yield from txin_hist_cases(r, 400 if thorough else 12)
     # construction histories: the id / size / bytes accessors are read after EVERY construction step on the same live object
     for _ in range(60 if thorough else 4):
         steps = []
@@ -175,6 +176,40 @@ def cases(ctx):
                 steps.append({"op": "get_id"})
             steps[-1]["model"] = wire.tx_encode({"version": version, "ins": ins, "outs": outs, "locktime": locktime}).hex()
         yield {"k": "build_history", "steps": steps}
+
+
+def txin_hist_cases(r, n):
+    """setter histories on ONE live input object: parsed (coinbase or not) or built, then re-pointed / re-scripted step by step"""
+    NULL = "00" * 32
+    for _ in range(n):
+        start_cb = r.random() < 0.5
+        script = gen.rbytes(r, r.choice([2, 5, 40, 100])) if start_cb else gen.gen_script(r, 2)
+        m = {"txid": NULL if start_cb else gen.rbytes(r, 32).hex(), "vout": 0xFFFFFFFF if start_cb else r.choice([0, 1, 0xFFFFFFFF, gen.u32(r)]), "script": script.hex(), "seq": gen.u32(r)}
+        parsed = r.random() < 0.6
+        steps = []
+        models = [dict(m)]
+        for _ in range(r.randrange(1, 6)):
+            x = r.random()
+            if x < 0.3:
+                m["txid"] = r.choice([NULL, NULL, gen.rbytes(r, 32).hex(), "00" * 31 + "01"])
+                steps.append({"op": "set_prev_tx_id", "txid": m["txid"]})
+            elif x < 0.55:
+                m["vout"] = r.choice([0xFFFFFFFF, 0xFFFFFFFF, 0, 0xFFFFFFFE, gen.u32(r)])
+                steps.append({"op": "set_vout", "v": m["vout"]})
+            elif x < 0.7:
+                m["seq"] = gen.u32(r)
+                steps.append({"op": "set_sequence", "v": m["seq"]})
+            elif x < 0.85:
+                as_cb = r.random() < 0.5
+                sc = gen.rbytes(r, r.choice([2, 7, 33])) if as_cb else gen.gen_script(r, 2)
+                m["script"] = sc.hex()
+                steps.append({"op": "set_unlocking_script", "script": sc.hex(), "coinbase": as_cb})
+            elif x < 0.93:
+                steps.append({"op": "set_satoshis", "v": gen.u64(r)})
+            else:
+                steps.append({"op": "clone"})
+            models.append(dict(m))
+        yield {"k": "txin_hist", "parsed": parsed, "start_coinbase_script": start_cb, "start": models[0], "steps": steps, "models": models}
 
 
 def extra_stages(tier, seed, res):
@@ -406,6 +441,48 @@ def judge(ctx, case):
         else:
             if o["value"] != int.from_bytes(raw[:8], "little"):
                 ctx.viol("stand-alone txout value disagrees with the bytes", {"hex": case["hex"][:300]})
+    elif k == "txin_hist":
+        ctx.hit("txin_hist")
+        ctx.nontrivial()
+        m0 = case["models"][0]
+        enc = lambda m: wire.txin_encode({"txid_wire": bytes.fromhex(m["txid"])[::-1], "vout": m["vout"], "script": bytes.fromhex(m["script"]), "seq": m["seq"]})
+        rq = {"op": "txin_hist", "steps": case["steps"]}
+        if case["parsed"]:
+            rq["hex"] = enc(m0).hex()
+        else:
+            rq["new"] = {"txid": m0["txid"], "vout": m0["vout"], "script": m0["script"], "seq": m0["seq"], "coinbase": case["start_coinbase_script"]}
+        if case["parsed"] and not (m0["txid"] == "00" * 32 and m0["vout"] == 0xFFFFFFFF):
+            try:
+                toks = wire.tokenize(bytes.fromhex(m0["script"]))
+                if wire.detok(toks) != bytes.fromhex(m0["script"]) or wire.unclosed(toks):
+                    return
+            except Exception:
+                return
+        r = ctx.call(rq)
+        if "ok" not in r:
+            ctx.ev()
+            if "err" in r and case["parsed"]:
+                ctx.note("txin_hist: start input not accepted (C02 territory)")
+            else:
+                ctx.viol("input setter history could not be executed", {"resp": str(r)[:300]})
+            return
+        for si, (m, snap) in enumerate(zip(case["models"], r["ok"])):
+            ctx.ev()
+            what = "start" if si == 0 else case["steps"][si - 1]["op"]
+            eb = enc(m)
+            null = m["txid"] == "00" * 32 and m["vout"] == 0xFFFFFFFF
+            ctx.hit("txin_hist_null_outpoint" if null else "txin_hist_real_outpoint")
+            if snap["bytes"] != eb.hex():
+                ctx.viol("input object after a %s step serialises to bytes other than its current field values" % what, {"got": snap["bytes"][:300], "exp": eb.hex()[:300]})
+                return
+            if snap["coinbase"] != null or snap["clone_coinbase"] != null:
+                ctx.viol("input object's coinbase flag disagrees with what a decoder reads from its own serialisation (%s outpoint, after %s)" % ("null" if null else "real", what), {"bytes": snap["bytes"][:200], "flag": snap["coinbase"]})
+            if snap["reparse_coinbase"].get("ok") != null:
+                ctx.note("txin_hist: reparse of the input's own bytes fails or reports another coinbase flag")
+            if snap["tx_coinbase"] != null or snap["tx_coinbase_impl"] != null:
+                ctx.viol("a transaction holding only this input reports a coinbase flag that disagrees with its serialisation (%s outpoint, after %s)" % ("null" if null else "real", what), {"bytes": snap["bytes"][:200]})
+            if (snap["txid_be"], snap["vout"], snap["seq"], snap["script"]) != (m["txid"], m["vout"], m["seq"], m["script"]):
+                ctx.viol("input accessors after a %s step differ from the values set" % what, {"got": str({q: snap[q] for q in ("txid_be", "vout", "seq", "script")})[:300]})
     elif k == "build_history":
         ctx.hit("build_history")
         ctx.nontrivial()
